@@ -30,7 +30,7 @@ def c12(res, st, std_coq, lexer_inputs):
     n5 = 5 if res.tier == "quick" else 6
     total, mism, fails = 0, [], []
     r = vlib.lex_exhaustive(gens.LEX_ALPHABET, n5, "p", b"", "fn:split", "c12")
-    total += r["n"]; mism += r["mismatches"]; fails += r["fails"]
+    total += r["n"]; mism += r["mismatches"]; fails += r["fails"]; multi_exh = r["two_records"]
     ins = lexer_inputs(rnd, res.tier, "C12") + joined_statements(rnd, 1500 if res.tier == "quick" else 30000)
     inp = ("\n".join(hexs(x) for x in ins) + "\n").encode()
     g = vlib._run_out([vlib.HARNESS, "split-cases"], inp)
@@ -48,9 +48,9 @@ def c12(res, st, std_coq, lexer_inputs):
     res.obligation("correspondence split model: SplitRawStatements == extracted Coq model on %d strings" % (total + len(ins)),
                    not rest, "\n".join("%s\n  go:    %s\n  model: %s" % t for t in rest[:5]))
     multi = len(set(l for l in g if l.count(",") >= 4))
-    res.add_cases(total + len(ins), multi + total // 8, [g[0], g[len(g) // 2][:300], g[-1][:300]])
+    res.add_cases(total + len(ins), multi + multi_exh, [g[0], g[len(g) // 2][:300], g[-1][:300]])
     res.cov["rule"] = ("every string of <= %d symbols over the 24-symbol lexical alphabet, upstream corpus, random bytes, token soups, "
                        "';'-joined corpus statements with comments/whitespace/literals containing ';'; on each: C12 evaluated on the real "
                        "SplitRawStatements + Lexer (oracle) and pieces compared with the extracted Coq model; non-trivial = at least two "
-                       "pieces (counted on the sampled part, estimated as 1/8 of the exhaustive strings)" % n5)
+                       "pieces (counted by the harness on the exhaustive strings and on the sampled part)" % n5)
     res.assumptions += ["the lexer model of C13 (same correspondence) underlies the splitter model"]
